@@ -16,6 +16,7 @@ import (
 	"runtime/debug"
 	"sort"
 	"strconv"
+	"strings"
 	"sync"
 	"sync/atomic"
 	"time"
@@ -283,11 +284,36 @@ func (c *Ctx) Par(n int, f func(i int)) {
 				if c.Expired() || c.Violations() > maxViol {
 					return
 				}
-				f(i)
+				c.safely(func() { f(i) })
 			}
 		}()
 	}
 	wg.Wait()
+}
+
+// safely is the last line of defence for check bodies that do not wrap a call
+// into the library with Guard: a panic is a verdict about the code under test,
+// never a crash of the checker. The signature names the panic value and the
+// innermost frame inside /repo so that it is stable across runs.
+func (c *Ctx) safely(f func()) {
+	defer func() {
+		if r := recover(); r != nil {
+			st := string(debug.Stack())
+			frame := ""
+			lines := strings.Split(st, "\n")
+			for i, l := range lines {
+				if strings.HasPrefix(l, "google.golang.org/protobuf/") && !strings.HasPrefix(l, "google.golang.org/protobuf/verifmc/") && i+1 < len(lines) {
+					frame = strings.TrimSpace(l)
+					if k := strings.LastIndex(frame, "("); k > 0 {
+						frame = frame[:k]
+					}
+					break
+				}
+			}
+			c.Violation(fmt.Sprintf("panic in the library: %v in %s", r, frame), map[string]any{"panic": fmt.Sprint(r), "stack": st})
+		}
+	}()
+	f()
 }
 
 // ParRange splits [lo,hi) into chunks and runs f(lo,hi) on all cores.
